@@ -15,7 +15,9 @@ func (w *World) CheckClose(o *Obs) []Violation {
 	}
 	var closers []string
 	for _, i := range w.P.Instances {
-		if w.Types[i.Type].Role == "closer" {
+		// what counts is the published version: a closer that a post-processor replaced by an
+		// object without Close() is no closer any more (and must not keep the others from being closed)
+		if w.Types[i.Type].Role == "closer" && w.Types[w.pubType(i.ID)].Role == "closer" {
 			closers = append(closers, i.ID)
 		}
 	}
